@@ -226,13 +226,14 @@ impl<W: 'static, R: 'static, T: 'static> XSequence<W, R, T> {
     ) -> Result<Result<Self, &'a Rc<ManagedXValue<W, R, T>>>, &'static str> {
         let seq0 = to_native!(base0, Self);
         let seq1 = to_native!(base1, Self);
-        if seq0.is_empty() {
-            return if seq1.is_empty() {
+        // an empty operand is any sequence of length 0, whatever its representation
+        if seq0.len() == Some(0) {
+            return if seq1.len() == Some(0) {
                 Ok(Ok(Self::Empty))
             } else {
                 Ok(Err(base1))
             };
-        } else if seq1.is_empty() {
+        } else if seq1.len() == Some(0) {
             return Ok(Err(base0));
         }
         let Some(len0) = seq0.len() else { return Err("first sequence is infinite"); };
